@@ -42,6 +42,21 @@ int main(int argc, char **argv) {
             else if (fn == "atol") { v = igv_atol(s); end = s; } else if (fn == "atoi") { v = (unsigned)igv_atoi(s); w = 4; end = s; }
             else { fprintf(stderr, "bad fn\n"); exit(3); }
             Ev e("Strto"); e.str("fn", fn.c_str()).bytes("text", tx.data(), tx.size()).i("base", base).le("val", v, w).i("endoff", (long)(end - s)); e.end(); free(s); return; }
+        if (t[0] == "StrtoBig") {   // StrtoBig fn ch k tail base : the text is k copies of the character ch (white space or '0') followed by tail; k up to 2^31 and more
+            // (texts of gigabytes: offsets and counts that do not fit 31 / 32 bits).  The buffer is kept between calls with the same ch and k.
+            const std::string &fn = t[1]; int ch = num(t[2]); unsigned long long k = strtoull(t[3].c_str(), 0, 10); auto tl = blist(t[4]); int base = num(t[5]);
+            static char *big = 0; static unsigned long long bigk = 0; static int bigch = -1;
+            if (!big || bigk != k || bigch != ch) { free(big); big = (char *)malloc(k + 64); if (!big) { perror("malloc"); exit(3); } memset(big, ch, k); bigk = k; bigch = ch; }
+            memcpy(big + k, tl.data(), tl.size()); big[k + tl.size()] = 0;
+            unsigned keep = g_op_timeout; if (keep) { g_op_timeout = 900; watchdog(true); g_op_timeout = keep; }
+            char *end = 0; unsigned long long v = 0; int w = 8;
+            if (fn == "strtol") v = igv_strtol(big, &end, base); else if (fn == "strtoul") v = igv_strtoul(big, &end, base); else if (fn == "strtoll") v = igv_strtoll(big, &end, base); else if (fn == "strtoull") v = igv_strtoull(big, &end, base);
+            else if (fn == "strtoimax") v = igv_strtoimax(big, &end, base); else if (fn == "strtoumax") v = igv_strtoumax(big, &end, base);
+            else if (fn == "atol") { v = igv_atol(big); end = big; } else if (fn == "atoi") { v = (unsigned)igv_atoi(big); w = 4; end = big; }
+            else { fprintf(stderr, "bad fn\n"); exit(3); }
+            long long eo = end - big;      // end offset, logged as two halves of 16 bits below 2^47 and a sign
+            Ev e("StrtoBig"); e.str("fn", fn.c_str()).i("ch", ch).str("ks", t[3].c_str()).i("kh", (long long)(k >> 16)).i("kl", (long long)(k & 0xffff)).bytes("tail", tl.data(), tl.size()).i("base", base).le("val", v, w)
+             .i("eneg", eo < 0 ? 1 : 0).i("eh", (long long)((eo < 0 ? -eo : eo) >> 16)).i("el", (long long)((eo < 0 ? -eo : eo) & 0xffff)); e.end(); return; }
         if (t[0] == "Qsort" || t[0] == "Bsearch" || t[0] == "QsortN" || t[0] == "BsearchN") {   // Qsort size div keys      Bsearch size div keys key
             size_t size = num(t[1]); g_div = num(t[2]); auto keys = blist(t[3]); size_t n = keys.size();
             unsigned char *blk = (unsigned char *)malloc(n * size ? n * size : 1); g_base = blk; g_n = n; g_size = size; g_cmps.clear();
